@@ -329,7 +329,7 @@ def process(ck, m, rng, gs, schema, sdl, wschema, items, max_depth):
 def run(tier):
     ck = Check("C13", tier)
     ck.assumptions += ASSUMPTIONS
-    br = common.build("C13", models=("exec", "rules13"), extra_targets=("theories/Properties/C13rules.vo",))
+    br = common.build("C13", models=("exec", "rules13", "overlap"), extra_targets=("theories/Properties/C13rules.vo",))
     ck.proofs(br, extra_files=("C13rules",))
     if not br.ok:
         return ck.finish()
